@@ -63,7 +63,8 @@ func mergeSpec(a, over CfgSpec) CfgSpec {
 	return m
 }
 
-var jsonCfgPool = []*JSONCfg{nil, {Indent: "\t", SortKeys: false, Width: 0}, {Indent: "  ", SortKeys: true, Width: 80}, {Indent: " ", SortKeys: false, Width: 20}}
+var jsonCfgPool = []*JSONCfg{nil, nil, {Indent: "\t", SortKeys: false, Width: 0}, {Indent: "  ", SortKeys: true, Width: 80}, {Indent: " ", SortKeys: false, Width: 20},
+	{Indent: "", SortKeys: true, Width: 0}, {Indent: "", SortKeys: false, Width: 0}, {Indent: " ", SortKeys: true, Width: 40}}
 
 func genOptSpec(t *rapid.T, label string) CfgSpec {
 	s := CfgSpec{Dir: "snaps"}
@@ -126,6 +127,19 @@ func runC12(c c12Case, shared bool) (c12Obs, error) {
 		a = WithConfig(base...)
 		b = WithConfig(append(append([]func(*Config){}, base...), optionValues(root, c.Over, false)...)...)
 	}
+	// witness: the same document through Config A (and through the options of A built fresh) before and after the
+	// sequence; what A stores must not depend on the calls made in between (through A, B or any other Config)
+	witness := func(name string) {
+		wt := newFakeT(name)
+		cfg := a
+		if !shared {
+			cfg = c.Spec.build(root)
+		}
+		Call{API: "json", Doc: BS(witnessDoc), Form: "string"}.invoke(cfg, wt)
+		Call{API: "sjson", Doc: BS(witnessDoc), Form: "bytes"}.invoke(cfg, wt)
+		wt.finish()
+	}
+	witness("TestWitnessBefore")
 	ft := newFakeT("TestCfg")
 	var obs c12Obs
 	for i, cc := range c.Calls {
@@ -151,9 +165,34 @@ func runC12(c c12Case, shared bool) (c12Obs, error) {
 		obs.outcomes = append(obs.outcomes, out)
 	}
 	ft.finish()
+	witness("TestWitnessAfter")
 	obs.dir = snapDir(root)
+	// compare what the two witness executions stored
+	spec := c.Spec
+	mp := spec.multiPath()
+	es, _ := refParse(obs.dir[mp].Data)
+	i1, i2 := findEntry(es, "TestWitnessBefore - 1"), findEntry(es, "TestWitnessAfter - 1")
+	if i1 < 0 && i2 < 0 {
+		return obs, nil // Update(false): nothing may be created through this Config
+	}
+	if i1 < 0 || i2 < 0 {
+		return obs, fmt.Errorf("only one of the two witness entries exists in %q: %s", mp, describeEntries(es))
+	}
+	if es[i1].Body != es[i2].Body {
+		return obs, fmt.Errorf("the same document through the same Config is stored differently before and after the call sequence (a call changed the Config or package-level state):\nbefore %q\nafter  %q", clip(string(es[i1].Body)), clip(string(es[i2].Body)))
+	}
+	s1 := obs.dir[spec.standalonePath("TestWitnessBefore", 1, true)].Data
+	s2 := obs.dir[spec.standalonePath("TestWitnessAfter", 1, true)].Data
+	if spec.Filename != "" {
+		s2 = s1 // a fixed Filename maps both witnesses to the same standalone file
+	}
+	if s1 != s2 {
+		return obs, fmt.Errorf("the same document through the same Config is stored differently (standalone) before and after the call sequence:\nbefore %q\nafter  %q", clip(s1), clip(s2))
+	}
 	return obs, nil
 }
+
+const witnessDoc = `{"zeta":[1,2,3],"alpha":{"y":[true,null,"a long enough string to matter for width"],"x":1}}`
 
 func checkC12(c c12Case) error {
 	sharedObs, err := runC12(c, true)
